@@ -238,12 +238,20 @@ class CounterInterp:
             raise Undecided('path explosion')
         # loop fixpoint check
         if node.id in on_path:
-            if on_path[node.id] != st.key():
+            seen_keys = on_path[node.id]
+            if st.key() in seen_keys:
+                return
+            # the counters must be loop-invariant (no widening here); the finite part of the state (is the OS lock held, is c
+            # known) may differ between the first and a later arrival - `while not self.is_locked: ... self._acquire()` comes
+            # round with the lock taken - and is explored once per value
+            if any(k[0] != st.key()[0] for k in seen_keys) or len(seen_keys) >= 6:
                 raise Undecided(f'loop at {g.loc(node)} changes the abstract state: '
-                                f'{on_path[node.id]} -> {st.key()}')
-            return
-        on_path = dict(on_path)
-        on_path[node.id] = st.key()
+                                f'{sorted(seen_keys, key=repr)[0]} -> {st.key()}')
+            on_path = dict(on_path)
+            on_path[node.id] = seen_keys | {st.key()}
+        else:
+            on_path = dict(on_path)
+            on_path[node.id] = frozenset([st.key()])
         if node is g.exit or node is g.raise_exit:
             return
         try:
@@ -340,6 +348,12 @@ class CounterInterp:
                 # against such constants are decided
                 from .paths import const_key
                 kk = const_key(v) if v is not None else None
+                if kk is None and v is not None:
+                    from .paths import sentinels as _sentinels
+                    if isinstance(v, ast.Name) and v.id in _sentinels(g):
+                        kk = 'S:' + v.id          # a private `object()` marker of the module
+                    elif isinstance(v, ast.Call) and (g.res.path(v.func) or '').split('.')[0] in ('os', 'time', 'builtins', 'fcntl', 'msvcrt'):
+                        kk = 'OTHER'              # what a library call returns is no marker of this module
                 if kk is not None:
                     s.facts['K:' + n.meta['name']] = kk
                 else:
@@ -404,7 +418,7 @@ class CounterInterp:
                 return True
             return False if all(v is False for v in vals) else None
         if isinstance(e, ast.Compare):
-            kc = self._const_compare(e, st)
+            kc = self._const_compare(e, st, g)
             if kc is not None:
                 return kc
             try:
@@ -415,7 +429,7 @@ class CounterInterp:
             return st.locked
         return None
 
-    def _const_compare(self, t: ast.AST, st: State) -> Optional[bool]:
+    def _const_compare(self, t: ast.AST, st: State, g: Optional[CFG] = None) -> Optional[bool]:
         """`name is/==/is not/!= <named constant or literal>` for a local known to hold such a constant."""
         from .paths import const_key
         if not (isinstance(t, ast.Compare) and len(t.ops) == 1 and isinstance(t.ops[0], (ast.Is, ast.IsNot, ast.Eq, ast.NotEq))):
@@ -424,6 +438,10 @@ class CounterInterp:
         for x, y in ((a, b), (b, a)):
             if isinstance(x, ast.Name) and ('K:' + x.id) in st.facts:
                 k = const_key(y)
+                if k is None and g is not None and isinstance(y, ast.Name):
+                    from .paths import sentinels as _sentinels
+                    if y.id in _sentinels(g):
+                        k = 'S:' + y.id
                 if k is not None:
                     same = st.facts['K:' + x.id] == k
                     return same if isinstance(t.ops[0], (ast.Is, ast.Eq)) else not same
@@ -434,7 +452,7 @@ class CounterInterp:
         out: List[Tuple[Edge, State]] = []
         te = [e for e in normal if e.label == 'true']
         fe = [e for e in normal if e.label == 'false']
-        kc = self._const_compare(t, st)
+        kc = self._const_compare(t, st, g)
         if kc is not None:
             return [(e, st.copy()) for e in (te if kc else fe)]
         if isinstance(t, ast.Name) and 'B:' + t.id in st.facts:
